@@ -39,8 +39,8 @@ def run(prog, R, tier="quick", only_rule=None):
     c02f(prog, R)
 
 
-def c02a(prog, R):
-    r = R.rule("C02.a", "version history discipline (append after persist, replace keeps the seqno)", "W,O")
+def c02a(prog, R, rid="C02.a"):
+    r = R.rule(rid, "version history discipline (append after persist, replace keeps the seqno)", "W,O")
     f = prog.need(A.UPGRADE_SEQNO)
     pers = f.calls_to(A.PERSIST_VERSION)
     app = f.calls_to(A.APPEND_VERSION)
